@@ -141,7 +141,7 @@ Proof.
     rewrite (Hrest Hnf). unfold slice. rewrite firstn_min, skipn_length. f_equal. unfold total in *. lia. }
   assert (Hlen : N.of_nat (length (firstn (N.to_nat m) rest)) + 259 < 2 ^ 40).
   { destruct Hsuf as [k ->]. rewrite firstn_length, skipn_length. lia. }
-  destruct (compress_room2 data flags wb Hraw Hwb acc c n _ _ out_len f Hlen Hlf HGI HDz Hpre) as (r' & Er & H1 & _ & H3).
+  destruct (compress_room2 data flags wb Hraw Hwb acc c n _ _ out_len f Hlen Hlf HGI HDz Hpre) as (r' & Er & H1 & _ & H3 & _).
   rewrite Hc in Er. inversion Er; subst r'. clear Er.
   destruct (H1 Hst Hroom) as [Hp' [X|[Hrin _]]]; [contradiction|].
   destruct (H3 Hst Hroom Hpe Hnn) as (Ht & Hl & Hfin).
